@@ -68,7 +68,7 @@ def main():
                 exit=r.returncode, violation_lines=len(lines), first=(lines[0][:300] if lines else None),
                 wall_s=round(time.time() - t0, 1), tail=r.stdout.strip().splitlines()[-1][:300] if r.stdout.strip() else "")
             print("  check %s: exit %s, %d VIOLATION lines, %.0fs  %s" % (c, r.returncode, len(lines), time.time() - t0,
-                                                                        lines[0][:200] if lines else r.stdout.strip().splitlines()[-1][:200]))
+                                                                        lines[0][:200] if lines else (r.stdout.strip().splitlines() or ["(no output)"])[-1][:200]))
     finally:
         sh("git -C %s checkout -- ." % REPO)
         json.dump(meta, open(meta_p, "w"), indent=1)
